@@ -34,6 +34,7 @@ RULE_TEXT = (
     'quick). evaluations = programs; distinct_nontrivial = distinct '
     '(program shape digest) among programs whose fault actually fired at '
     'least once. fault_points counts every (program,k,kind) executed.')
+RULE_TEXT += ' 1 in 5 written default-alias programs run through the Evolver API inside a caller-held transaction (api_nested).'
 ASSUMPTIONS = [
     'SQLite transactional DDL; process death, not power loss',
     'the statement stream of the uninterrupted run enumerates the fault '
@@ -53,6 +54,10 @@ def generate(seed, index, tier):
     scn['crash_sample'] = rng.random()
     # the batch transaction must protect whichever database is evolved
     scn['alias'] = 'other' if rng.random() < 0.25 else 'default'
+    # the Evolver API called inside a transaction the caller holds open
+    if scn['alias'] == 'default' and scn['mode'] == 'written' and \
+            index % 5 == 4:
+        scn['driver'] = 'api_nested'
     # a second app gains a model in the same upgrade (one batch creating
     # models for two apps)
     P = scn['project']
@@ -103,7 +108,8 @@ def _faulted(ws, scn, sts, fault, pre, post_u, k, kind, scope, viols, stats,
         'fired_%s_%s' % (kind, scope), 0) + 1
     detail = dict(k=k, fault=kind, scope=scope, statement=inj['sql'][:120],
                   ops=tags, mode=scn.get('mode'), phase=_phase(r),
-                  alias=scn.get('alias', 'default'))
+                  alias=scn.get('alias', 'default'),
+                  driver=scn.get('driver', 'command'))
     if kind == 'sql_error':
         if r.status == 'ok':
             viols.append(violation('C07.failure_swallowed', **detail))
@@ -161,6 +167,8 @@ def execute(scn):
         ws.main_alias = alias
         if alias != 'default':
             stats['non_default_database'] = 1
+        if scn.get('driver') == 'api_nested':
+            stats['api_inside_caller_transaction'] = 1
         r0 = common.install(ws, P, sts, 0, scn['rows'])
         if getattr(r0, 'rows_rejected', None):
             stats['rows_rejected'] = 1
